@@ -426,6 +426,9 @@ def accessors(cname):
                 A.append(('theta/%s' % u, lambda x, u=u: x.theta(unit=u)))
             if cname == 'SE2':
                 A.append(('xyt', lambda x: x.xyt()))
+    elif cname in ('Twist3', 'Twist2'):
+        # per-value predicates (the code's own multi-valued arm says: a list of M answers)
+        A += [('isprismatic', lambda x: x.isprismatic), ('isrevolute', lambda x: x.isrevolute)]
     elif cname == 'Quaternion':
         A += [('neg', lambda x: -x), ('conj', lambda x: x.conj()), ('norm', lambda x: x.norm()), ('log', lambda x: x.log())]
     elif cname == 'UnitQuaternion':
